@@ -394,10 +394,15 @@ def build(model):
             a = ann(ret)
             body.append(f"    def {name}(self){' -> ' + repr(a) if a else ''}: ...")
         src.append("\n".join(body) if body else "    pass")
-    src.append("@dataclasses.dataclass\nclass Info:\n    x: int\n    w: float\n    trk: Trk\n    trks: Iterable[Trk]")
+    # string annotations (forward references / `from __future__ import annotations` style) next to plain ones
+    src.append("@dataclasses.dataclass\nclass Info:\n    x: int\n    w: 'float'\n    trk: 'Trk'\n    trks: 'Iterable[Trk]'")
     src.append("class Coll(ObjectStream[T]):\n    def __init__(self, a, item_type=Any):\n        super().__init__(a, item_type)\n"
                "    def Top(self) -> T: ...\n    def N(self) -> int: ...\n    def Rest(self) -> Iterable[T]: ...")
-    exec("\n".join(src), ns)
+    from vf.common import srcgen
+
+    mod = srcgen.load("\n".join(src), ns, prefix="vfmodel")  # a real module: string annotations resolve through sys.modules
+    ns = mod.__dict__
+    ns["_vf_module"] = mod
     register_func_adl_os_collection(ns["Coll"])
     return ns
 
@@ -438,7 +443,10 @@ def _type_eq(got, want_ir, ns):
             return False
         from typing import get_type_hints
 
-        hints = get_type_hints(got)
+        try:
+            hints = get_type_hints(got)
+        except Exception:
+            hints = {f.name: f.type for f in dataclasses.fields(got)}  # unresolvable field types are compared as they are
         return list(hints) == [k for k, _ in want_ir[1]] and all(_type_eq(hints[k], v, ns) for k, v in want_ir[1])
     if want_ir[0] == "it" and want_ir[1][0] == "rec":
         from typing import get_args, get_origin
@@ -513,6 +521,15 @@ def check(case) -> Result:
             return a
 
     ns = build(case["model"])
+    try:
+        return _check(case, ns, DS)
+    finally:
+        from vf.common import srcgen
+
+        srcgen.unload(ns["_vf_module"])
+
+
+def _check(case, ns, DS) -> Result:
     texts = [f"{s[0]}(lambda {s[1]}: {render(s[2])})" for s in case["stages"]]
     r = Result(sample={"query": texts, "model": {k: [[n, ann(t)] for n, t in v] for k, v in case["model"].items()}},
                key=repr(case["model"]) + "|".join(texts))
